@@ -11,6 +11,10 @@ import (
 
 func buildPipeline(g *scheduler.ExecutionGraph, stages []*stageDefinition, cfg *Config) (*scheduler.ExecutionGraph, error) {
 	for _, def := range stages {
+		if def == nil {
+			return nil, fmt.Errorf("stage build failed: empty stage definition")
+		}
+
 		var stageTask *task.Task
 		var stagePipeline *scheduler.ExecutionGraph
 
